@@ -21,7 +21,7 @@ func init() {
 			us = append(us, replayUnits(tier)...)
 			return us
 		},
-		QuickBudget:    90,
+		QuickBudget:    240,
 		ThoroughBudget: 900,
 	})
 }
